@@ -768,3 +768,69 @@ func TestVerifIRC(t *testing.T) {
 	}
 	json.NewEncoder(w).Encode(&vRecord{K: "end", H: h, Post: map[string]interface{}{}, Out: []vReply{}, Lookup: [][]interface{}{}})
 }
+
+// TestVerifIRCEdges replays the transition cover printed by TLC (IRCMC_edges*.cfg): for every
+// (prologue, entries) pair the prologue is applied silently to a fresh server, then the entries are
+// applied and recorded, so that TLC validates exactly the transitions it generated.
+func TestVerifIRCEdges(t *testing.T) {
+	outp, in := os.Getenv("VERIF_IRC_OUT"), os.Getenv("VERIF_IRC_EDGES")
+	if outp == "" || in == "" {
+		t.Skip("VERIF_IRC_OUT / VERIF_IRC_EDGES not set")
+	}
+	var spec struct {
+		Prologues map[string][]*vEntry `json:"prologues"`
+		Edges     []struct {
+			Pro int       `json:"pro"`
+			Es  []*vEntry `json:"es"`
+		} `json:"edges"`
+	}
+	b, err := os.ReadFile(in)
+	if err != nil {
+		t.Fatal(err)
+	}
+	if err := json.Unmarshal(b, &spec); err != nil {
+		t.Fatal(err)
+	}
+	f, err := os.Create(outp)
+	if err != nil {
+		t.Fatal(err)
+	}
+	defer f.Close()
+	w := bufio.NewWriterSize(f, 1<<20)
+	defer w.Flush()
+	enc := json.NewEncoder(w)
+	base := time.Unix(1500000000, 0)
+	for n, ed := range spec.Edges {
+		h := 100000 + n
+		d := &vReplica{srv: ircserver.NewIRCServer(vNet, base), direct: true}
+		dead := false
+		for _, e := range spec.Prologues[strconv.Itoa(ed.Pro)] {
+			cp := *e
+			cp.fill()
+			if _, p := d.apply(&cp); p != "" {
+				dead = true
+				break
+			}
+		}
+		if dead {
+			continue
+		}
+		enc.Encode(&vRecord{K: "reset", H: h, Post: d.srv.VerifProject(), Out: []vReply{}, Lookup: [][]interface{}{}})
+		for idx, e := range ed.Es {
+			cp := *e
+			cp.fill()
+			rec := &vRecord{K: "step", H: h, I: idx + 1, E: &cp, Lookup: [][]interface{}{}}
+			msgs, p := d.apply(&cp)
+			rec.Post = d.srv.VerifProject()
+			if p != "" {
+				rec.Panic, rec.PanicS, rec.Out = true, p, []vReply{}
+				enc.Encode(rec)
+				break
+			}
+			rec.Out = vProjectReplies(msgs)
+			rec.Lines = vCheckLines(msgs)
+			enc.Encode(rec)
+		}
+	}
+	enc.Encode(&vRecord{K: "end", H: len(spec.Edges), Post: map[string]interface{}{}, Out: []vReply{}, Lookup: [][]interface{}{}})
+}
